@@ -848,7 +848,13 @@ static carquet_status_t load_next_page_mmap(
         return status;
     }
 
-    if (page_header.type != CARQUET_PAGE_DATA && page_header.type != CARQUET_PAGE_DATA_V2) {
+    if (page_header.type == CARQUET_PAGE_DATA_V2) {
+        /* The v2 layout (levels outside the compressed part, no length prefixes) is not
+         * implemented: reading its header through the v1 view decodes garbage */
+        CARQUET_SET_ERROR(error, CARQUET_ERROR_NOT_IMPLEMENTED, "Data page v2 is not supported");
+        return CARQUET_ERROR_NOT_IMPLEMENTED;
+    }
+    if (page_header.type != CARQUET_PAGE_DATA) {
         CARQUET_SET_ERROR(error, CARQUET_ERROR_INVALID_PAGE, "Expected data page");
         return CARQUET_ERROR_INVALID_PAGE;
     }
@@ -1084,7 +1090,13 @@ static carquet_status_t load_next_page_fread(
         return status;
     }
 
-    if (page_header.type != CARQUET_PAGE_DATA && page_header.type != CARQUET_PAGE_DATA_V2) {
+    if (page_header.type == CARQUET_PAGE_DATA_V2) {
+        /* The v2 layout (levels outside the compressed part, no length prefixes) is not
+         * implemented: reading its header through the v1 view decodes garbage */
+        CARQUET_SET_ERROR(error, CARQUET_ERROR_NOT_IMPLEMENTED, "Data page v2 is not supported");
+        return CARQUET_ERROR_NOT_IMPLEMENTED;
+    }
+    if (page_header.type != CARQUET_PAGE_DATA) {
         CARQUET_SET_ERROR(error, CARQUET_ERROR_INVALID_PAGE, "Expected data page");
         return CARQUET_ERROR_INVALID_PAGE;
     }
